@@ -285,6 +285,32 @@ Section Exact.
     - exists res, tk0, v0, tk1, v1. rewrite s_tokens_set. repeat split; assumption.
   Qed.
 
+  (** flow 1.2 never pays out to the module account itself: the coin-balance check (after = before + a) cannot
+      hold when the coins go from the module account to the module account *)
+  Lemma ce_native_coin_receiver s p d a r u s' :
+    convert_erc20_native_coin xcall MODULE s p d a r u = Ok s' -> r <> MODULE.
+  Proof.
+    unfold convert_erc20_native_coin.
+    destruct (get_balance s r d) as [bc0| |] eqn:G0; cbn [obind]; try discriminate.
+    destruct (balance_of xcall MODULE s (p_erc20 p) u) as [s0 b0] eqn:B0.
+    destruct (evm_call xcall MODULE s0 (p_erc20 p) MODULE (CBurnCoins u a)) as [s1 res] eqn:E.
+    destruct (cr_ok res) eqn:O; cbn [negb]; [|discriminate].
+    destruct (send_module_to_account MODULE s1 r d a) as [s2| |] eqn:S; cbn [obind]; try discriminate.
+    destruct (get_balance s2 r d) as [bc1| |] eqn:G1; cbn [obind]; try discriminate.
+    destruct (bc1 =? bc0 + a) eqn:BC; cbn [negb]; [|discriminate]. apply Z.eqb_eq in BC.
+    intros _ ->.
+    apply get_balance_inv in G0. apply get_balance_inv in G1.
+    assert (BK : forall st c k cl st' rr, evm_call xcall MODULE st c k cl = (st', rr) -> s_bank st' = s_bank st).
+    { intros st c k cl st' rr H. apply evm_call_inv in H as [(_ & _ & _ & tk & _ & ->)|[_ ->]]; reflexivity. }
+    assert (K1 : s_bank s0 = s_bank s).
+    { unfold balance_of in B0. destruct (evm_call xcall MODULE s (p_erc20 p) MODULE (CBalanceOf u)) as [sa ra] eqn:EA.
+      inversion B0; subst. eapply BK; exact EA. }
+    pose proof (BK _ _ _ _ _ _ E) as K2.
+    apply send_module_inv in S as (_ & _ & P & _ & ->).
+    rewrite sent_bank in G1. rewrite K2, K1 in G1. rewrite Z.eqb_refl, bytes_eqb_refl in G1. cbn [andb] in G1.
+    unfold ind in G1. lia.
+  Qed.
+
   (** ** Flow 2.1: token -> voucher coin, external contract *)
   Lemma ce_native_token_exact s p d a r u s' :
     convert_erc20_native_token xcall MODULE s p d a r u = Ok s' ->
@@ -464,6 +490,27 @@ Section Exact.
   Definition ce_pair s (m : msg_ce) : outcome pair :=
     minting_enabled s (hex_to_addr (ce_sender m)) (ce_receiver m) (ce_contract m) (ce_denom m).
 
+  (** the gates a successful run of the handler passed (no ValidateBasic involved: also the ICS-20 hook's path) *)
+  Lemma handle_ok_gates s m s' :
+    handle xcall xcontract MODULE s m = Ok s' ->
+    s_params s = true /\
+    exists p, match m with MCC c => cc_pair s c | MCE c => ce_pair s c end = Ok p /\
+      p_enabled p = true /\
+      let receiver := match m with MCC c => hex_to_addr (cc_receiver c) | MCE c => ce_receiver c end in
+      let sender := match m with MCC c => cc_sender c | MCE c => hex_to_addr (ce_sender c) end in
+      let denom := match m with MCC c => cc_denom c | MCE c => ce_denom c end in
+      zmem receiver (s_blocked s) = false /\ (sender = receiver \/ send_enabled s denom = true) /\
+      get_pair s (get_denom_map s denom) = Some p.
+  Proof.
+    intro H. destruct m as [c|c]; cbn [handle] in H.
+    - apply convert_coin_inv in H as (p & M & _). pose proof M as M'.
+      apply minting_enabled_inv in M' as (P & D & _ & G & E & B & S).
+      split; [exact P|]. exists p. cbv zeta. rewrite D. repeat split; assumption.
+    - apply convert_erc20_inv in H as (p & M & _). pose proof M as M'.
+      apply minting_enabled_inv in M' as (P & D & _ & G & E & B & S).
+      split; [exact P|]. exists p. cbv zeta. rewrite D. repeat split; assumption.
+  Qed.
+
   Theorem deliver_ok_gates s m s' :
     deliver xcall xcontract MODULE s m = (s', 0%nat) ->
     validate_basic m = true /\ s_params s = true /\
@@ -476,13 +523,7 @@ Section Exact.
       get_pair s (get_denom_map s denom) = Some p.
   Proof.
     intro H. apply deliver_inv in H as [(_ & V & H)|(N & _)]; [|contradiction].
-    split; [exact V|]. destruct m as [c|c]; cbn [handle] in H.
-    - apply convert_coin_inv in H as (p & M & _). pose proof M as M'.
-      apply minting_enabled_inv in M' as (P & D & _ & G & E & B & S).
-      split; [exact P|]. exists p. cbv zeta. rewrite D. repeat split; assumption.
-    - apply convert_erc20_inv in H as (p & M & _). pose proof M as M'.
-      apply minting_enabled_inv in M' as (P & D & _ & G & E & B & S).
-      split; [exact P|]. exists p. cbv zeta. rewrite D. repeat split; assumption.
+    split; [exact V|]. exact (handle_ok_gates _ _ _ H).
   Qed.
 
   Theorem disabled_module_refused s m : s_params s = false -> deliver xcall xcontract MODULE s m = (s, 1%nat).
@@ -543,7 +584,71 @@ Section Exact.
       destruct (Z.eqb_spec (hex_to_addr (ce_sender c)) (ce_receiver c)); [contradiction|]. reflexivity.
   Qed.
 
-  (** a successful MsgConvertCoin *)
+  (** a successful ConvertCoin (whoever called it: BaseApp or the ICS-20 hook) *)
+  Theorem convert_coin_ok_exact s m s' p :
+    convert_coin xcall xcontract MODULE s m = Ok s' -> cc_pair s m = Ok p ->
+    let d := cc_denom m in let a := cc_amount m in let u := cc_sender m in let r := hex_to_addr (cc_receiver m) in
+    let c := p_erc20 p in
+    if is_contract xcontract s c then
+      (p_owner p = 1 \/ p_owner p = 2) /\ 0 < a /\ a <= bget (s_bank s) u d /\
+      bank_shift s s' (fun x y => ind ((x =? u) && bytes_eqb y d) (- a)
+                                  + ind ((p_owner p =? 1) && (x =? MODULE) && bytes_eqb y d) a) /\
+      supply_shift s s' (fun y => ind ((p_owner p =? 2) && bytes_eqb y d) (- a)) /\
+      same_gates s s' /\ accts_plus s s' MODULE /\
+      exists res,
+        (if p_owner p =? 1
+         then token_effect (s_tokens s) (s_tokens s') c MODULE (CMint r a) r a res
+         else token_effect2 (s_tokens s) (s_tokens s') c MODULE (CTransfer r a) r a MODULE (- a) res) /\
+        (p_owner p = 2 -> unpack_bool (cr_ret res) = Some true /\ approval_check (cr_logs res) = Ok tt)
+    else s' = delete_pair s p.
+  Proof.
+    intros H M. apply convert_coin_inv in H as (q & M' & H). unfold cc_pair in M.
+    rewrite M in M'; inversion M'; subst q; clear M'. cbv zeta.
+    destruct H as [(C & ->)|[(C & O & H)|(C & O & H)]]; rewrite C; [reflexivity| |].
+    - apply cc_native_coin_exact in H as (VD & P & L & BS & SS & G & A & AM & res & TE).
+      rewrite O. cbn [Z.eqb Pos.eqb andb]. destruct G as (? & ? & ? & ? & ? & ? & ? & ?).
+      repeat split; try assumption; try (left; reflexivity).
+      exists res. split; [exact TE|]. intro; discriminate.
+    - apply cc_native_erc20_exact in H as (VD & P & L & L2 & BS & SS & G & A & AM & res & TE & U & AP).
+      rewrite O. cbn [Z.eqb Pos.eqb andb]. destruct G as (? & ? & ? & ? & ? & ? & ? & ?).
+      repeat split; try assumption; try (right; reflexivity).
+      + intros x y. rewrite BS. unfold ind at 3. ring.
+      + exists res. split; [exact TE|]. intro; split; assumption.
+  Qed.
+
+  (** a successful ConvertERC20 *)
+  Theorem convert_erc20_ok_exact s m s' p :
+    convert_erc20 xcall xcontract MODULE s m = Ok s' -> ce_pair s m = Ok p ->
+    let d := ce_denom m in let a := ce_amount m in let u := hex_to_addr (ce_sender m) in let r := ce_receiver m in
+    let c := p_erc20 p in
+    if is_contract xcontract s c then
+      (p_owner p = 1 \/ p_owner p = 2) /\ 0 < a /\ zmem r (s_blocked s) = false /\
+      bank_shift s s' (fun x y => ind ((x =? r) && bytes_eqb y d) a
+                                  + ind ((p_owner p =? 1) && (x =? MODULE) && bytes_eqb y d) (- a)) /\
+      supply_shift s s' (fun y => ind ((p_owner p =? 2) && bytes_eqb y d) a) /\
+      same_gates s s' /\ accts_plus s s' r /\
+      exists res,
+        (if p_owner p =? 1
+         then token_effect (s_tokens s) (s_tokens s') c MODULE (CBurnCoins u a) u (- a) res
+         else token_effect (s_tokens s) (s_tokens s') c u (CTransfer MODULE a) MODULE a res) /\
+        (p_owner p = 2 -> unpack_bool (cr_ret res) = Some true /\ approval_check (cr_logs res) = Ok tt)
+    else s' = delete_pair s p.
+  Proof.
+    intros H M. apply convert_erc20_inv in H as (q & M' & H). unfold ce_pair in M.
+    rewrite M in M'; inversion M'; subst q; clear M'. cbv zeta.
+    destruct H as [(C & ->)|[(C & O & H)|(C & O & H)]]; rewrite C; [reflexivity| |].
+    - apply ce_native_coin_exact in H as (VD & P & L & BL & BS & SS & G & A & AM & res & TE).
+      rewrite O. cbn [Z.eqb Pos.eqb andb]. destruct G as (? & ? & ? & ? & ? & ? & ? & ?).
+      repeat split; try assumption; try (left; reflexivity).
+      + intros x y. rewrite BS. ring.
+      + exists res. split; [exact TE|]. intro; discriminate.
+    - apply ce_native_token_exact in H as (VD & P & BL & AU & BS & SS & G & A & AM & res & TE & U & AP).
+      rewrite O. cbn [Z.eqb Pos.eqb andb]. destruct G as (? & ? & ? & ? & ? & ? & ? & ?).
+      repeat split; try assumption; try (right; reflexivity).
+      + intros x y. rewrite BS. unfold ind at 3. ring.
+      + exists res. split; [exact TE|]. intro; split; assumption.
+  Qed.
+  (** ... delivered as messages *)
   Theorem convert_coin_exact s m s' p :
     deliver xcall xcontract MODULE s (MCC m) = (s', 0%nat) -> cc_pair s m = Ok p ->
     let d := cc_denom m in let a := cc_amount m in let u := cc_sender m in let r := hex_to_addr (cc_receiver m) in
@@ -562,21 +667,9 @@ Section Exact.
     else s' = delete_pair s p.
   Proof.
     intros H M. apply deliver_inv in H as [(_ & _ & H)|(N & _)]; [|contradiction].
-    cbn [handle] in H. apply convert_coin_inv in H as (q & M' & H). unfold cc_pair in M.
-    rewrite M in M'; inversion M'; subst q; clear M'. cbv zeta.
-    destruct H as [(C & ->)|[(C & O & H)|(C & O & H)]]; rewrite C; [reflexivity| |].
-    - apply cc_native_coin_exact in H as (VD & P & L & BS & SS & G & A & AM & res & TE).
-      rewrite O. cbn [Z.eqb Pos.eqb andb]. destruct G as (? & ? & ? & ? & ? & ? & ? & ?).
-      repeat split; try assumption; try (left; reflexivity).
-      exists res. split; [exact TE|]. intro; discriminate.
-    - apply cc_native_erc20_exact in H as (VD & P & L & L2 & BS & SS & G & A & AM & res & TE & U & AP).
-      rewrite O. cbn [Z.eqb Pos.eqb andb]. destruct G as (? & ? & ? & ? & ? & ? & ? & ?).
-      repeat split; try assumption; try (right; reflexivity).
-      + intros x y. rewrite BS. unfold ind at 3. ring.
-      + exists res. split; [exact TE|]. intro; split; assumption.
+    cbn [handle] in H. exact (convert_coin_ok_exact _ _ _ _ H M).
   Qed.
 
-  (** a successful MsgConvertERC20 *)
   Theorem convert_erc20_exact s m s' p :
     deliver xcall xcontract MODULE s (MCE m) = (s', 0%nat) -> ce_pair s m = Ok p ->
     let d := ce_denom m in let a := ce_amount m in let u := hex_to_addr (ce_sender m) in let r := ce_receiver m in
@@ -595,19 +688,7 @@ Section Exact.
     else s' = delete_pair s p.
   Proof.
     intros H M. apply deliver_inv in H as [(_ & _ & H)|(N & _)]; [|contradiction].
-    cbn [handle] in H. apply convert_erc20_inv in H as (q & M' & H). unfold ce_pair in M.
-    rewrite M in M'; inversion M'; subst q; clear M'. cbv zeta.
-    destruct H as [(C & ->)|[(C & O & H)|(C & O & H)]]; rewrite C; [reflexivity| |].
-    - apply ce_native_coin_exact in H as (VD & P & L & BL & BS & SS & G & A & AM & res & TE).
-      rewrite O. cbn [Z.eqb Pos.eqb andb]. destruct G as (? & ? & ? & ? & ? & ? & ? & ?).
-      repeat split; try assumption; try (left; reflexivity).
-      + intros x y. rewrite BS. ring.
-      + exists res. split; [exact TE|]. intro; discriminate.
-    - apply ce_native_token_exact in H as (VD & P & BL & AU & BS & SS & G & A & AM & res & TE & U & AP).
-      rewrite O. cbn [Z.eqb Pos.eqb andb]. destruct G as (? & ? & ? & ? & ? & ? & ? & ?).
-      repeat split; try assumption; try (right; reflexivity).
-      + intros x y. rewrite BS. unfold ind at 3. ring.
-      + exists res. split; [exact TE|]. intro; split; assumption.
+    cbn [handle] in H. exact (convert_erc20_ok_exact _ _ _ _ H M).
   Qed.
 End Exact.
 
